@@ -83,7 +83,10 @@ claim("C07",
 claim("C01",
       "Decided on every run by the real type checker: each output of gounions / randdata / sqlcrud (generate-sets on and off) that the tool accepts goes through x/tools/imports.Process and is type-checked with go/types next to its source package, "
       "for corpus and synthesised modules. Coq carries the template obligations of the identifier-deciding parts (enum choice list = exactly the exported members and a well-formed expression list; Scan/Value receivers local and non-interface; no redeclaration), "
-      "proved for the model and evaluated in Coq on the identifiers parsed back (go/parser) from the real files.",
+      "proved for the model and evaluated in Coq on the identifiers parsed back (go/parser) from the real files. "
+      "gounions is modelled in full as a traversal (Model/GoUnionsGen.v: which declarations are emitted, in which order, with the types, constants, methods and wrapper types each one declares or mentions, and the refusals): "
+      "theorems for every program - the output is closed under the wrapper types it mentions without a package, methods have local receivers, only <Union>Wrapper types are declared and distinct unions get distinct wrappers - and the model's list is compared "
+      "with the list of the real generator, declaration by declaration, on every module.",
       "Partial by nature: Go's type system is not formalised in Coq; the obligations proved do not imply compilation - the go/types oracle does, on the cases run. github.com/lib/pq is replaced by an API-compatible stand-in (not available offline).",
       "go/types + goimports oracle on real outputs; Coq proof of template obligations + identifier correspondence", "DESIGN.md §5 C01")
 
